@@ -19,5 +19,5 @@ def replay(data: dict[str, Any]) -> tuple[bool, str]:
 
 def run(ctx: common.Context) -> None:
     steps.run_step(ctx, "occupied", 30, 400)
-    travcheck.run_property(ctx, plans, replay_trav, quick_s=150, thorough_s=1200)
+    travcheck.run_property(ctx, plans, replay_trav, quick_s=200, thorough_s=1500)
     ctx.assumptions.append("inductive step: params/results/started markers of real parsed bridged nodes are overwritten in place (restored afterwards); scope semantics oracle written from the property text")
